@@ -195,7 +195,7 @@ alg_wrap_wrp(const jose_hook_alg_t *alg, jose_cfg_t *cfg, json_t *jwe,
     json_auto_t *hdr = NULL;
     const char *aes = NULL;
     json_t *h = NULL;
-    int p2c = P2C_MAX_ITERATIONS;
+    json_int_t p2c = P2C_MAX_ITERATIONS;
     size_t stl = 0;
 
     if (!json_object_get(cek, "k") && !jose_jwk_gen(cfg, cek))
@@ -221,7 +221,7 @@ alg_wrap_wrp(const jose_hook_alg_t *alg, jose_cfg_t *cfg, json_t *jwe,
     if (!hdr)
         return false;
 
-    if (json_unpack(hdr, "{s?i}", "p2c", &p2c) < 0)
+    if (json_unpack(hdr, "{s?I}", "p2c", &p2c) < 0)
         return false;
 
     if (!json_object_get(hdr, "p2c") &&
